@@ -100,6 +100,12 @@ CHECKS.update({
     note="Trusted: TLC, Er7.tla / Escape.tla (premise), the exported shapes (counts of components and subcomponents per field). Numeric leaves are generated in plain decimal form, dates within years 1000-9999. Known finding: v2.1 RX1 rows.",
     ref="DESIGN.md §4 C01, §3.1"),
 })
+CHECKS.update({
+ "C07": dict(technique="TLA+ reference grammar (Er7.tla) whose closure law TLC checks on the bounded document space; messages BUILT through the API under arbitrary delimiter sets, the abstract tree handed to TLC, which (Er7Trace!DelimsVerdict) demands the real encoding to equal EncMsg(tree, ec)",
+    text="For ordered choices of 5 distinct characters out of 28 punctuation marks (quick: the default, its four cyclic shifts and 70 random sets per version; thorough: 900 per version including all arrangements of 8 marks), for versions >= 2.7 also with a sixth (truncation) character, x 12 versions x both levels, an ADT_A01 with a repeated field, components and subcomponents is built with Message(..., encoding_chars=ec). TLC joins the abstract tree with the given set and requires: the real to_er7() equals it, MSH-1/MSH-2 spell the set, the truncation character appears iff supplied, encoding_chars reads back equal on the message and every descendant, parsing the output recovers the set and an identically encoding tree, to_mllp() frames the same text; 17 defective sets (each key missing, each pair duplicated incl. TRUNCATION, non-mappings) must raise InvalidEncodingChars through Message, check_encoding_chars and set_default_encoding_chars.",
+    note="Trusted: TLC, Er7.tla, the abstract tree the harness builds next to the API calls. Leaf values are alphanumeric (escaping is C06); '.' is not used as a delimiter because it occurs in every MSH-12 version id.",
+    ref="DESIGN.md §4 C07, §3.1"),
+})
 NOT_YET = {}
 def main():
     props = [json.loads(l) for l in open(os.path.join(HERE, "properties.jsonl"))]
